@@ -367,15 +367,22 @@ impl A2lFile {
 
         let file_text = self.write_to_string();
 
+        let mut skip = 0;
         if let Some(banner_text) = banner {
             outstr = format!("/* {banner_text} */");
-            // if the first line is empty (first charachter is \n), then the banner is placed on the empty line
-            // otherwise a newline is added
-            if !file_text.starts_with('\n') {
+            // the banner takes one line per line of its text. If the file text starts with at least as many empty lines,
+            // then the banner is placed on these and the first element keeps its line; otherwise a newline is added
+            // and the first element directly follows the banner
+            let banner_lines = banner_text.matches('\n').count() + 1;
+            let empty_lines = file_text.len() - file_text.trim_start_matches('\n').len();
+            if empty_lines >= banner_lines {
+                skip = banner_lines - 1;
+            } else {
                 outstr.push('\n');
+                skip = empty_lines;
             }
         }
-        outstr.push_str(&file_text);
+        outstr.push_str(&file_text[skip..]);
 
         std::fs::write(&path, outstr).map_err(|ioerror| A2lError::FileWriteError {
             filename: path.as_ref().to_path_buf(),
